@@ -142,7 +142,9 @@ func c19Zero(c *run.Ctx, idx int) {
 			mq.Dump(&b, nil)
 			return b.String()
 		})
-		checkStr("Pub()", func() string { return mq.Pub(0, "", "").String() + mq.Pub(3, "a", "b").String() + mq.Pub(255, "a", "b").String() })
+		checkStr("Pub()", func() string {
+			return mq.Pub(0, "", "").String() + mq.Pub(3, "a", "b").String() + mq.Pub(255, "a", "b").String()
+		})
 	case 3: // CONNECT holding zero-value / odd wills
 		for k, w := range []*mq.Publish{{}, mq.NewPublish(), mq.Pub(3, "", "")} {
 			cn := mq.NewConnect()
@@ -274,9 +276,10 @@ func c19Hostile(c *run.Ctx, hphase, idx int) {
 	n := 0
 	hostileInputs(c.Env, hphase, idx, func(kind string, in []byte) {
 		n++
+		done := hugeCall(c, "ReadPacket", in)
 		res := libRead(in)
+		done()
 		c.Eval(1)
-		collectAfterHuge(in)
 		org := func() map[string]interface{} { return map[string]interface{}{"input": hexClip(in, 1024), "kind": kind} }
 		if res.Accepted() {
 			render(c, "decoded by ReadPacket", res.Pkt, org)
